@@ -64,6 +64,7 @@ func ScanIssues(tool, stdin string) []ToolIssue {
 
 // Tools implements kern.ToolModel.
 type Tools struct {
+	Broken  map[string]ToolFault // tool -> every invocation of it fails this way (a broken installation)
 	Missing map[string]bool      // tools LookPath does not find
 	Faults  map[string]ToolFault // invocation key -> fault
 	Errno   map[string]int64     // invocation key -> errno for cannot-start
@@ -101,9 +102,16 @@ func (t *Tools) LookPath(name string) (string, bool) {
 	return "/usr/bin/" + b, true
 }
 
+func (t *Tools) fault(tool, stdin string) ToolFault {
+	if f, ok := t.Broken[tool]; ok {
+		return f
+	}
+	return t.Faults[InvKey(tool, stdin)]
+}
+
 func (t *Tools) CanStart(argv []string, stdin string) int64 {
 	k := InvKey(toolOf(argv), stdin)
-	if t.Faults[k] == TFCannotStart {
+	if t.fault(toolOf(argv), stdin) == TFCannotStart {
 		if e := t.Errno[k]; e != 0 {
 			return e
 		}
@@ -133,7 +141,7 @@ func (t *Tools) Run(argv []string, stdin string) kern.ToolResult {
 		for _, is := range issues {
 			var n int
 			fmt.Sscanf(is.Code, "SC%d", &n)
-			arr = append(arr, js{"-", is.Line, is.Line, is.Col, is.Col + 6, "warning", n, "marker issue " + is.Code + "."})
+			arr = append(arr, js{"-", is.Line, is.Line, is.Col, is.Col + 6, "warning", n, "marker issue " + is.Code + " checked as " + shellArg(argv) + "."})
 		}
 		stdout, _ = json.Marshal(arr)
 		stdout = append(stdout, '\n')
@@ -157,7 +165,7 @@ func (t *Tools) Run(argv []string, stdin string) kern.ToolResult {
 			code = 1
 		}
 	}
-	switch t.Faults[InvKey(tool, stdin)] {
+	switch t.fault(tool, stdin) {
 	case TFKilled:
 		return kern.ToolResult{Signaled: true, Stderr: []byte("Killed\n")}
 	case TFKilledOutput:
